@@ -246,6 +246,7 @@ Lemma gen_cols_shape : forall d o t, gen d o = Built t -> o_notraits o = false -
 Proof.
   intros d o t H Hnt. unfold gen in H.
   destruct (sort_values (d_consts d)) as [|first rest] eqn:Es; [discriminate|].
+  destruct (o_ci o && negb (str_nodupb (map (fun v => to_lower (g_name v)) (first :: rest)))); [discriminate|].
   rewrite Hnt in H.
   destruct (first_columns d o first (g_cells first)) as [cols0| | |] eqn:Ef; try discriminate.
   exists first, rest, cols0. split; [reflexivity|]. split; [exact Ef|].
